@@ -83,6 +83,8 @@ type VC struct {
 	specApps   map[string][]specApp
 	entryArgs  []*Term
 	allowLemma bool
+	siteCall   *ast.CallExpr
+	siteState  *State
 	unsupported []string
 
 	runs         []*contractRun
